@@ -1248,6 +1248,27 @@ func (c *ctx) poolScenarios(dec *lazyproto.Decoder, def lazyproto.Def, o optSet)
 	}
 	closeH(hC)
 	closeH(hB)
+	// 2b. Close on a nested handle AFTER its parent was closed (a deferred nested.Close() that runs late: it never has any effect), then
+	// a message with several nested elements: each element's result has to be an object of its own
+	one := field([]byte{0x08, 0x01}, 3, []byte{0x08, 0x07})
+	many := field(field(field([]byte{0x08, 0x02}, 3, []byte{0x08, 0x07}), 3, []byte{0x08, 0x08}), 3, []byte{0x08, 0x09, 0x12, 0x01, 'q'})
+	for round := 0; round < 2; round++ {
+		hs := c.decodeObj(dec, def, one, o.mode, o.name)
+		var stale []*handle
+		if hs.live {
+			stale = append(c.nested(hs, 3, round == 0), c.nested(hs, 3, round == 1)...)
+		}
+		closeH(hs)
+		for _, k := range stale {
+			c.close(k)
+		}
+		hm := c.decodeObj(dec, def, many, o.mode, o.name)
+		if hm.live {
+			probeNested(hm, true)
+			probeNested(hm, false)
+		}
+		closeH(hm)
+	}
 	// 3. every slice accessor on a tag of its own wire type: result kept by the caller, Close, the next result of a different length
 	fixed := func(n int) []byte {
 		var b []byte
